@@ -52,6 +52,9 @@ class ProtocolHandler:
         if not method:
             # Get ID if available (not on notifications)
             msg_id = getattr(message, "id", None)
+            if msg_id is None:
+                # Nothing to answer: an error response needs the request's id
+                return None, None
             return self.create_error_response(msg_id, -32600, "Invalid request"), None
 
         # Update session activity
@@ -62,6 +65,10 @@ class ProtocolHandler:
         if not handler:
             # Get ID if available (not on notifications)
             msg_id = getattr(message, "id", None)
+            if msg_id is None:
+                # Notifications never get a response, not even an error
+                logging.debug(f"Ignoring notification for unknown method: {method}")
+                return None, None
             return self.create_error_response(
                 msg_id, -32601, f"Method not found: {method}"
             ), None
@@ -72,6 +79,9 @@ class ProtocolHandler:
             logging.error(f"Handler error for {method}: {e}")
             # Get ID if available (not on notifications)
             msg_id = getattr(message, "id", None)
+            if msg_id is None:
+                # Notifications never get a response, not even an error
+                return None, None
             return self.create_error_response(
                 msg_id, -32603, f"Internal error: {str(e)}"
             ), None
